@@ -54,7 +54,7 @@ fn variant_by_name(name: &str) -> Option<crate::function::BuiltInFunction> {
         B::GenericToInt, B::GenericToBigint, B::GenericToByte, B::GenericToFloat, B::GenericAbs, B::GenericSqrt, B::GenericPow, B::GenericPowf,
         B::FloatFPart, B::FloatIPart, B::FloatRound, B::FloatFloor, B::FloatCeil, B::ByteToAscii, B::StrParseInt, B::StrParseIntRadix,
         B::StrParseBigint, B::StrParseBigintRadix, B::StrParseBool, B::StrParseFloat, B::StrParseByte, B::GenericToStr,
-        B::VecLen, B::VecReverse, B::VecRemove, B::VecPush, B::VecJoin, B::VecIndexOf, B::VecClear, B::VecClone,
+        B::VecMap, B::VecFilter, B::VecLen, B::VecReverse, B::VecRemove, B::VecPush, B::VecJoin, B::VecIndexOf, B::VecClear, B::VecClone,
         B::StrLen, B::StrSubstring, B::StrContains, B::StrIndexOf, B::StrReverse, B::StrInsert, B::StrReplace, B::StrDelete, B::StrSplit, B::StrChars,
     ];
     all.into_iter().find(|b| format!("{:?}", b) == name)
@@ -148,6 +148,70 @@ fn run_list_builtin(spec: &str, args: &[P]) -> String {
         Ok((Some(p), _)) => format!("OK {}", item(p)),
     };
     let out = format!("{res} | {} | {}", items(&recv), other.as_ref().map(items).unwrap_or_default());
+    std::mem::forget(ctx);
+    out
+}
+
+/// list.map / list.filter: op = "<Variant>:<n>"; the first n operands are the receiver's elements, the following n+1 the values the
+/// (fake) callback returns in turn.  The callback bridge is driven exactly like Function::run drives it.
+/// Output: "<result> | <receiver contents afterwards> | calls=<arguments of each callback invocation>"
+fn run_bridge_builtin(spec: &str, args: &[P]) -> String {
+    use crate::function::{PrimitiveFunction, ReturnValue};
+    let parts: Vec<&str> = spec.split(':').collect();
+    let b = variant_by_name(parts[0]).unwrap_or_else(|| panic!("builtin {spec}"));
+    let n: usize = parts[1].parse().unwrap();
+    let recv = crate::GcVector::new(args[..n].to_vec());
+    let rets = &args[n..];
+    let function = Function::new(Weak::new(), "verif".to_string(), Box::new([]));
+    let stack = Rc::new(RefCell::new(Stack::new()));
+    let mut ctx = Ctx::new(&function, stack, Cow::Owned(vec![]), None);
+    ctx.push(P::Vector(recv.clone()));
+    ctx.push(P::Function(PrimitiveFunction::new("verif.mmm#__fn0".to_string(), None)));
+    let items = |v: &[P]| v.iter().map(item).collect::<Vec<_>>().join(",");
+    let contents = |v: &crate::GcVector| items(&v.0.borrow());
+    let mut calls: Vec<String> = vec![];
+    let show_vec = |v: &crate::GcVector| format!("OK Vector:{}:{}", if gc::Gc::ptr_eq(&v.0, &recv.0) { "same" } else { "fresh" }, contents(v));
+    let head = match b.run(&mut ctx) {
+        Err(_) => "ERR".to_string(),
+        Ok((Some(P::Vector(ref v)), None)) => show_vec(v),
+        Ok((Some(ref p), None)) => format!("OK {}", item(p)),
+        Ok((None, None)) => "OK none".to_string(),
+        Ok((_, Some(bridge))) => {
+            let mut i = 0;
+            let mut failed = false;
+            loop {
+                let req = match bridge.wait_for() {
+                    Ok(r) => r,
+                    Err(_) => {
+                        failed = true;
+                        break;
+                    }
+                };
+                calls.push(items(&req.arguments));
+                let rv = ReturnValue::Value(rets[i].clone());
+                i += 1;
+                match bridge.then(rv) {
+                    Ok(true) => continue,
+                    Ok(false) => break,
+                    Err(_) => {
+                        failed = true;
+                        break;
+                    }
+                }
+            }
+            if failed {
+                "ERR".to_string()
+            } else {
+                match bridge.finish() {
+                    Ok(Some(P::Vector(ref v))) => show_vec(v),
+                    Ok(Some(ref p)) => format!("OK {}", item(p)),
+                    Ok(None) => "OK none".to_string(),
+                    Err(_) => "ERR".to_string(),
+                }
+            }
+        }
+    };
+    let out = format!("{head} | {} | calls={}", contents(&recv), calls.join(";"));
     std::mem::forget(ctx);
     out
 }
@@ -288,6 +352,9 @@ pub fn eval_ext(op: &str, args: &[P]) -> String {
     }
     if let Some(iarg) = op.strip_prefix("V:") {
         return run_instr("vec_op", &[iarg], args);
+    }
+    if let Some(rest) = op.strip_prefix("M:") {
+        return run_bridge_builtin(rest, args);
     }
     if let Some(rest) = op.strip_prefix("L:") {
         return run_list_builtin(rest, args);
